@@ -16,6 +16,15 @@ def run(ctx, res):
                 CollapseAmbiguities().transform(t)
             except Exception as e:
                 res.violation('regression of fixed finding F12: ' + f['what'], dict(w, error=repr(e)))
+        if f['id'] == 'F25' and f['status'] == 'fixed':
+            from lark import Lark
+            from lark.visitors import CollapseAmbiguities
+            w = f['witness']
+            t = Lark(w['grammar'], parser='earley', ambiguity='explicit', lexer=w['lexer'], maybe_placeholders=True).parse(w['text'])
+            try:
+                CollapseAmbiguities().transform(t)
+            except Exception as e:
+                res.violation('regression of fixed finding F25: ' + f['what'], dict(w, error=repr(e)))
         if f['id'] == 'F24' and f['status'] == 'open':
             from lark import Lark
             w = f['witness']
